@@ -73,7 +73,7 @@ def run(chk):
                         "Zip::for_each applies the closure to corresponding lanes of equally shaped operands",
                         "the bracket index itself is the subject of C11"]
     calc_frac_identity(chk, lib, 'R1.1')
-    linear_wiring(chk, lib, 'R1.2')
+    linear_wiring(chk, lib, 'R1.2', ext=True)   # the range guard itself is C05's subject: evaluate the kernel with the guard off
     # R1.3: index_point evaluated alone
     b = anchor(chk, lib, 'interp1d::Interp1D::index_point', 'R1.3')
     if b is not None:
